@@ -43,6 +43,12 @@ OPTION_PAIR_ROWS = [
      "resetting rho without delta would break delta >= rho"),
 ]
 
+# single-parameter thresholds validated in solve itself (the parameter table's bounds are inclusive, so a strict bound needs its own guard):
+#   (row id, parameter key, op, literal, reason)
+PARAM_THRESHOLD_ROWS = [
+    ("restarts.rhoend_scale<=0", "restarts.rhoend_scale", "le", 0.0, "a restart factor of 0 makes rhoend 0 (division by rhoend in reduce_rho); fix 20b5f8b"),
+]
+
 # C07-7  raises that are part of the documented behaviour: (function fid, exception name, reason)
 ALLOWED_RAISES = [
     ("params.ParameterList.__call__", "ValueError", "documented: unknown parameter name / second update raise ValueError"),
